@@ -465,21 +465,46 @@ def build_views(facts):
             continue
         v = View(facts, imp)
         if v.adt:
-            for fld in v.adt['variants'][0]['fields']:
-                f = Field(fld['name'], fld['ty'], fld['ty_str'])
-                ty = fld['ty']
-                if ty.get('param') in v.view_params:
-                    f.role = 'child'
-                elif ty.get('adt') in view_adts:
-                    f.role = 'child'
-                    f.child_adt = ty['adt']
-                elif ty.get('adt') == 'std::marker::PhantomData':
-                    f.role = 'marker'
-                elif is_buffer_ty(ty):
-                    f.role = 'buffer'
-                else:
-                    f.role = 'cell'
-                v.fields.append(f)
+            def subst_ty(ty, sub):
+                if not isinstance(ty, dict):
+                    return ty
+                if 'param' in ty and ty['param'] in sub:
+                    return sub[ty['param']]
+                out = dict(ty)
+                for k_ in ('args', 'elems'):
+                    if isinstance(ty.get(k_), list):
+                        out[k_] = [subst_ty(x, sub) for x in ty[k_]]
+                for k_ in ('inner', 'elem'):
+                    if isinstance(ty.get(k_), dict):
+                        out[k_] = subst_ty(ty[k_], sub)
+                return out
+
+            def add_fields(adt, prefix, sub, depth):
+                for fld in adt['variants'][0]['fields']:
+                    ty = subst_ty(fld['ty'], sub)
+                    f = Field(prefix + fld['name'], ty, fld['ty_str'])
+                    inner = facts.adts.get(ty.get('adt')) if isinstance(ty, dict) else None
+                    if ty.get('param') in v.view_params:
+                        f.role = 'child'
+                    elif ty.get('adt') in view_adts:
+                        f.role = 'child'
+                        f.child_adt = ty['adt']
+                    elif ty.get('adt') == 'std::marker::PhantomData':
+                        f.role = 'marker'
+                    elif inner is not None and inner.get('kind') == 'Struct' and depth < 3 and len(inner.get('variants', [])) == 1 \
+                            and ty_contains(ty, lambda t: t.get('param') in v.view_params or t.get('adt') in view_adts):
+                        # a private struct that groups part of the state *including an inner view*: its fields are the view's
+                        # fields (the value graph names them `outer.inner` as well)
+                        gens = inner.get('generics', [])
+                        args = ty.get('args', [])
+                        add_fields(inner, prefix + fld['name'] + '.', {g: a for g, a in zip(gens, args)}, depth + 1)
+                        continue
+                    elif is_buffer_ty(ty):
+                        f.role = 'buffer'
+                    else:
+                        f.role = 'cell'
+                    v.fields.append(f)
+            add_fields(v.adt, '', {}, 0)
         for fn in facts.fns:
             if fn.adt != v.adt_path:
                 continue
